@@ -78,15 +78,15 @@ variable {F : Type} [QArith F]
 open QArith
 
 /-- The tail of `calculateNextQuota` (after the `switch`): the percent floor `m = total*MinimumQuotaPercent`,
-    the clamp to `current + remaining`, the clamp to `total`, the minimum of 1, `math.Ceil`.
+    the clamp to `recorded + remaining` (`recorded`: the quota on record for the reporter), the clamp to `total`, the minimum of 1, `math.Ceil`.
     `x` is the value of `next` computed by the strategy arithmetic. -/
-def tailPre (x m current remaining total : F) : F :=
+def tailPre (x m recorded remaining total : F) : F :=
   let n1 := if lt x m then m else x
-  let n2 := if lt remaining (sub n1 current) then add current remaining else n1
+  let n2 := if lt remaining (sub n1 recorded) then add recorded remaining else n1
   let n3 := if lt total n2 then total else n2
   if lt n3 (ofInt 1) then ofInt 1 else n3
 
-def tail (x m current remaining total : F) : F := ceil (tailPre x m current remaining total)
+def tail (x m recorded remaining total : F) : F := ceil (tailPre x m recorded remaining total)
 
 /-- inputs of one `calculateNextQuota` call for one flow-control item (all `int32` in Go) -/
 structure In where
@@ -94,7 +94,8 @@ structure In where
   totalBurst : Int     -- global burst (token bucket only)
   allocated : Int      -- recorded sum of quotas (upstreamUsed)
   upstreamLevel : Int  -- upstreamUsed.RequestLevel
-  current : Int        -- the reporter's current quota (flowControlConfig)
+  current : Int        -- the quota the reporter says it holds (flowControlConfig)
+  recorded : Int       -- the quota on record for the reporter (0 without a record)
   used : Int           -- the reporter's reported usage (flowControlStatus)
   level : Int          -- flowControlStatus.RequestLevel
   clients : Int        -- len(clients)
@@ -158,7 +159,7 @@ def strategy (i : In) : Except Err F := do
 def calcNextQuota (i : In) : Except Err (Int × Int) := do
   let x : F ← strategy i
   let total : F := ofInt i.total
-  let next := tail x (mul total (ofConst KG.Gen.C07.minimumQuotaPercent)) (ofInt i.current)
+  let next := tail x (mul total (ofConst KG.Gen.C07.minimumQuotaPercent)) (ofInt i.recorded)
     (sub total (ofInt i.allocated)) total
   let burst : F := if i.tokenBucket then mul (div next total) (ofInt i.totalBurst) else ofInt 0
   pure (trunc next, trunc (ceil burst))
@@ -170,8 +171,8 @@ end
 The recorded state for one flow-control schema of one upstream: the quota on record for every instance, and the
 configured global limit `T`. `UpdateRateLimitConditionStatus` answers a report of instance `i` with
 `tail x m c (T − A) T` where `A` is the recorded sum (recomputed by `calculateUpstreamCondition` after every
-save), `c` the reporter's quota (an honest reporter sends the quota on record; `0` for a new instance) and
-`x`, `m` whatever the strategy arithmetic produced; the answer replaces the reporter's recorded quota.
+save), `c` the quota ON RECORD for the reporter (`0` without a record — whatever quota the report itself claims
+only feeds the strategy arithmetic) and `x`, `m` whatever the strategy arithmetic produced; the answer replaces the reporter's recorded quota.
 Operations on one upstream are serialised by its mutex: each op is atomic. -/
 
 structure Srv where
@@ -195,7 +196,7 @@ def setQuota : List (Nat × Int) → Nat → Int → List (Nat × Int)
   | (j, p) :: rest, i, q => if j = i then (i, q) :: rest else (j, p) :: setQuota rest i q
 
 inductive Op
-  | report (i : Nat) (x m : Rat)   -- honest report; `x`,`m`: arbitrary outputs of the strategy arithmetic
+  | report (i : Nat) (x m : Rat)   -- any report; `x`,`m`: arbitrary outputs of the strategy arithmetic
   | delete (i : Nat)               -- the instance's condition is removed (clean-up of a dead instance, C18)
   | setLimit (t : Int)             -- the global limit is changed
 
@@ -265,7 +266,7 @@ def hstep (s : HSrv) : HOp → Except Err (HSrv × Option (Int × Int))
     let c := claim.getD (s.quotaOf i)
     let (n, b) ← calcNextQuota (F := Float)
       { total := s.total, totalBurst := s.totalBurst, allocated := s.recSum, upstreamLevel := s.recLevel,
-        current := c, used := used, level := level, clients := s.clients, tokenBucket := s.tokenBucket }
+        current := c, recorded := s.quotaOf i, used := used, level := level, clients := s.clients, tokenBucket := s.tokenBucket }
     let s' := { s with insts := upsert s.insts { id := i, quota := n, burst := b, used := used } }
     pure (recompute s', some (n, b))
   | .delete i => pure ({ s with insts := s.insts.filter (·.id != i) }, none)
